@@ -105,8 +105,8 @@ M = [
     ("m05c", ["C05", "C16"], "src/lang/token.rs", "            Octal(s) => write!(f, \"&{}\", s),", "            Octal(s) => write!(f, \"&O{}\", s),",
      "octal literal listed as &O.. which does not lex back"),
     ("m05d", ["C05"], "src/lang/lex.rs",
-     "                tokens.push(Token::Unknown(s.trim_end().into()));",
-     "                tokens.push(Token::Unknown(s.trim().into()));",
+     "                let s = s.trim_end_matches(is_basic_whitespace);",
+     "                let s = s.trim_matches(is_basic_whitespace);",
      "remark text loses leading blanks"),
     # ---- C06 variables
     ("m06a", ["C06"], "src/mach/var.rs", "            if r > d {", "            if r >= d {", "top subscript rejected"),
